@@ -38,6 +38,13 @@ ConvertDen(clo, lit, qunit, target) ==
    unit |-> Canon(target),
    mono |-> MAdd(One("n:" \o lit), MAdd(a.mono, MNeg(b.mono)))]
 
+\* ---- display of a conversion result (C04: "displayed in exactly U, as a multiple of U when U has a magnitude
+\* other than 1").  The display target is a property of the LAST conversion only: converting again - even into the
+\* same unit, even a zero - displays the plain value in the new unit.
+DisplayTarget(targetLit) == IF targetLit = "1" THEN "none" ELSE targetLit
+RECURSIVE ChainDisplayTarget(_)
+ChainDisplayTarget(lits) == IF lits = << >> THEN "none" ELSE DisplayTarget(lits[Len(lits)])
+
 \* ---- conversion: the implementation's procedure (quantity.rs convert_to), symbolically:
 \* common factors (same unit, same prefix, same exponent sign) are cancelled with min/max exponent,
 \* the rest goes through base units
